@@ -127,6 +127,11 @@ theorem inv3_step (s : St) (a : Act) (s' : St) (i1 : Inv1 s) (i2 : Inv2 s) (hi :
         exact ⟨h1, h2, fun x hx => h3 x (mem_erase_of hx), fun x hx => h4 x (mem_erase_of hx), h6, h5⟩
       · cases h
     · cases h
+  | cbMark f d inl =>
+    simp only [step] at h
+    (repeat' split at h) <;> first
+      | (cases h; exact ⟨h1, h2, h3, h4, h6, h5⟩)
+      | cases h
   | cbPolicy d r =>
     simp only [step] at h
     split at h
